@@ -670,6 +670,31 @@ Definition deser_cell (t : ctype) (b : bytes) : dres (cell * bytes) :=
   | Some (Some s, r) => rbind (deser_value t s) (fun v => Ok (CVal v, r))
   end.
 
+(* Typed carriers whose elements may be null (Vec<Option<T>> with T = CqlValue): ListlikeIterator
+   hands `None` to `Option::<T>::deserialize`, which answers None instead of ExpectedNonNull. *)
+Definition cell_of_raw (f : bytes -> dres cval) (ob : option bytes) : dres cell :=
+  match ob with
+  | None => Ok CNull
+  | Some s => rbind (f s) (fun v => Ok (CVal v))
+  end.
+
+Fixpoint deser_items_cells (f : bytes -> dres cval) (fuel : nat) (n : N) (b : bytes) : dres (list cell) :=
+  if n =? 0 then Ok [] else
+  match fuel with
+  | O => Err DE_OutOfFuel
+  | S fuel' =>
+      match read_cql_bytes b with
+      | None => Err DE_RawCqlBytesRead
+      | Some (ob, r) =>
+          rbind (cell_of_raw f ob) (fun x =>
+          rbind (deser_items_cells f fuel' (n - 1) r) (fun xs => Ok (x :: xs)))
+      end
+  end.
+
+(* <Vec<Option<CqlValue>> as DeserializeValue>::deserialize on the contents of a list / set cell *)
+Definition deser_listlike_cells (e : ctype) (b : bytes) : dres (list cell) :=
+  rbind (read_count b) (fun nr => deser_items_cells (deser_value e) (S (List.length b)) (fst nr) (snd nr)).
+
 (* ====================================================================================== *)
 (* 6. What the round trip returns (pad), which values belong to a type (wf), known classes   *)
 (* ====================================================================================== *)
@@ -781,6 +806,30 @@ Definition wf_native (n : ntype) (v : cval) : bool :=
   | NTimeuuid, CTimeuuid b => bytes_okb b && len_is 16 b
   | NUuid, CUuid b => bytes_okb b && len_is 16 b
   | NVarint, CVarint raw => bytes_okb raw && negb (is_nil raw)
+  | _, _ => false
+  end.
+
+(* [wf_native] spelled out as "what the Rust type of the constructor can hold" minus three domain
+   exclusions that the serialiser does NOT check (lemma wf_native_char):
+     - a non-ASCII string bound to `ascii`        (the reader answers ExpectedAscii),
+     - a CqlTime outside 0 ..= 86399999999999     (the reader answers ValueOverflow),
+     - a CqlVarint of zero bytes                   (written as a zero-length cell, read back as Empty).
+   None of the three is a value of the CQL type (ascii = bytes in 0..127, time = nanoseconds of a
+   day, varint = an integer, which needs at least one byte), so they lie outside "every value of
+   that type"; they are nevertheless accepted by the writer and not read back
+   (Props/C01.v, theorems C01_outside_ascii, _time, _varint), and the driver counts them (verdict suffix obs=...). *)
+Definition rust_native (n : ntype) (v : cval) : bool :=
+  match n, v with
+  | NAscii, (CAscii s | CText s) => utf8_valid s          (* a Rust String *)
+  | NTime, CTime z => in_range 64 z                        (* CqlTime(i64) *)
+  | NVarint, CVarint raw => bytes_okb raw                  (* CqlVarint(Vec<u8>) *)
+  | _, _ => wf_native n v
+  end.
+Definition domain_excl (n : ntype) (v : cval) : bool :=
+  match n, v with
+  | NAscii, (CAscii s | CText s) => negb (ascii_valid s)
+  | NTime, CTime z => negb ((0 <=? z) && (z <=? time_max))%Z
+  | NVarint, CVarint raw => is_nil raw
   | _, _ => false
   end.
 
@@ -921,6 +970,13 @@ Definition vector_hole (t : ctype) (v : cval) : bool := exists_sub kc_vector_hol
 Definition empty_tuple_inside (t : ctype) (v : cval) : bool := exists_sub kc_empty_tuple t v.
 Definition known_class_cell (t : ctype) (c : cell) : bool :=
   match c with CVal v => known_class t v | _ => false end.
+
+(* an element cell of a typed carrier: null, not set, or a value of the element type outside the
+   known classes *)
+Definition cell_ok (e : ctype) (c : cell) : Prop :=
+  match c with CVal v => wf_val e v = true /\ known_class e v = false | _ => True end.
+Definition cell_okb (e : ctype) (c : cell) : bool :=
+  match c with CVal v => wf_val e v && negb (known_class e v) | _ => true end.
 
 (* which class, for the driver's tag (A before B) *)
 Inductive kclass := KA_vector_null_element | KB_empty_tuple.
@@ -1117,6 +1173,17 @@ Definition enc_cell_spec (t : ctype) (c : cell) : option bytes :=
   | CVal v => option_map (fun b => spec_value (Some (Some b))) (enc_spec t v)
   end.
 Definition EncCell (t : ctype) (c : cell) (b : bytes) : Prop := enc_cell_spec t c = Some b.
+
+(* a list / set whose elements are [bytes] items that may be null.  "[bytes]: ... if n < 0 no byte
+   should follow and the value represented is null": the -2 that a MaybeUnset element writes is
+   such a null. *)
+Definition enc_seq_cells_spec (e : ctype) (cells : list cell) : option bytes :=
+  option_map (fun body => spec_value (Some (Some (spec_int (Z.of_nat (List.length cells)) ++ body))))
+    (opt_concat (map (fun c => match c with
+                               | CNull => Some (spec_bytes None)
+                               | CUnset => Some (spec_int (-2))
+                               | CVal v => option_map (fun b => spec_bytes (Some b)) (enc_spec e v)
+                               end) cells)).
 
 (* ====================================================================================== *)
 (* Boolean forms of the property, evaluated by the correspondence driver on the              *)
